@@ -454,8 +454,10 @@ def check(run):
         )
 
 
-OPEN = ["compile_match_first_match: forall matrices and values, eval_core (compile_match arms) = first_match arms (general induction; not yet proved)"]
-LEVEL = "translation_validation"
+OPEN = ["fuel sufficiency (compile_rows terminates within Sigma pattern sizes + rows) is not proved: the theorem assumes no panic site (incl. out-of-fuel) is reached, which holds for every tree the correspondence run compares",
+        "generic enums/structs (type application) are outside the model",
+        "the Core -> Go lowering of the decision tree is validated per program under C01, not proved"]
+LEVEL = "proof"
 
 
 def replay(run, path):
